@@ -689,6 +689,13 @@ def _tight_edges(E, ds, togo, want):
     return [i for i, (a, b, c) in enumerate(E) if ds[a] is not None and togo[b] is not None and ds[a] + G.fr(c) + togo[b] == want]
 
 
+def _route_labels(ctx, res):
+    """Measures the label generator: does a returned route carry None before its end / two nodes of equal hash?"""
+    path = res.solution
+    if isinstance(path, list) and len(path) >= 2:
+        ctx.label(any(x is None for x in path[:-1]) and "route-has-None-before-end", len({hash(x) for x in path}) < len(path) and "route-has-equal-hashes")
+
+
 def _finish(ctx, escapes):
     esc = [e for e in escapes if e]
     for e in esc:
@@ -795,6 +802,7 @@ def run_weighted(desc, ctx):
                 res = _call(ctx, astar, start_, goal_, nb_, hfun_, **kw)
             _note_mutation(ctx, snap, adj_, name)
             escapes.append(judge_path(name, res, env_, goals, want_, max_cost=mc, max_iter=mi, reach_n=reach_))
+            _route_labels(ctx, res)
 
     escapes = []
     solve(adj, nb, start, goal_arg, hval, hfun, escapes)
@@ -916,6 +924,7 @@ def run_unweighted(desc, ctx):
                 _judge_explore_all(name, res, {L[v] for v in R_}, sorted(R_))
             elif name == "bfs":
                 escapes.append(judge_path("bfs", res, Env(n, scheme, E, s), goals, wf, max_iter=mi, reach_n=len(R_)))
+                _route_labels(ctx, res)
             else:
                 escapes.append(judge_path("dfs", res, Env(n, scheme, E, s), goals, wf, optimal_status="FEASIBLE", any_path=True, max_iter=mi, reach_n=len(R_)))
                 if w_ is not None and res.status.name == "FEASIBLE":
